@@ -113,6 +113,8 @@ func (e *Engine) VerifyFunc(fn *ssa.Function, c *FuncContract) (run *FnRun) {
 	r := &FnRun{E: e, Fn: fn, C: c, params: map[string]Val{}, ptypes: map[string]types.Type{}, lets: map[string]Val{},
 		loops: map[*ssa.BasicBlock]*loopInfo{}, siteCnt: map[string]int{}, siteIdx: map[ssa.Instruction]int{}, FnName: shortFn(fn)}
 	r.implicit = c.Opts["implicit_panics"] == "allowed"
+	IntMode = c.Arith == "int"
+	defer func() { IntMode = false }()
 	defer func() {
 		if x := recover(); x != nil {
 			if u, ok := x.(unsupportedErr); ok {
@@ -187,18 +189,22 @@ func maxI64(a, b int64) int64 {
 	return b
 }
 
-const addrLimit = int64(1) << 47
+const addrLimit = int64(1) << 48
 
 // assumeValid registers [p, p+n) as a valid region in the user address space.
 func (r *FnRun) assumeValid(st *State, p, n Term, fresh bool) {
 	st.assume(validTerm(p, n), "valid region")
-	st.regions = append(st.regions, Region{Base: p, Size: Term{n.S, BV(64, false)}, Fresh: fresh})
+	st.regions = append(st.regions, Region{Base: p, Size: Term{n.S, BV(64, false)}, Fresh: fresh, Cond: True})
 }
 
 func validTerm(p, n Term) Term {
 	nu := Term{n.S, BV(64, false)}
 	lim := BVInt(addrLimit, 64, false)
 	pu := Term{p.S, BV(64, false)}
+	if IntMode {
+		z := BVInt(0, 64, false)
+		return And(Le(z, nu), Le(z, pu), Le(nu, lim), Le(pu, Sub(lim, nu)), Implies(Not(Eq(nu, z)), Not(Eq(pu, z))))
+	}
 	return And(Le(nu, lim), Le(pu, Sub(lim, nu)), Implies(Not(Eq(nu, BVInt(0, 64, false))), Not(Eq(pu, BVInt(0, 64, false)))))
 }
 
@@ -570,7 +576,7 @@ func (r *FnRun) constVal(st *State, c *ssa.Const) Val {
 				return True
 			}
 			return False
-		case KBV:
+		case KBV, KInt:
 			v, _ := new(big.Int).SetString(c.Value.ExactString(), 10)
 			if v == nil {
 				iv, _ := constant.Int64Val(constant.ToInt(c.Value))
@@ -843,6 +849,30 @@ func (r *FnRun) binopVals(st *State, ins ssa.Instruction, op token.Token, a, b V
 		}
 		panic(unsupported("float op " + op.String()))
 	}
+	if ta.Sort.K == KInt {
+		switch op {
+		case token.ADD, token.SUB, token.MUL, token.SHL:
+			var res Term
+			switch op {
+			case token.ADD:
+				res = Add(ta, tb)
+			case token.SUB:
+				res = Sub(ta, tb)
+			case token.MUL:
+				res = Mul(ta, tb)
+			case token.SHL:
+				if tb.Sort.Signed {
+					r.implicitCheck(st, ins, "shift", Le(zeroLike(tb), tb))
+				}
+				res = Shl(ta, tb)
+			}
+			res = st.name("ar", res)
+			// machine arithmetic treated as mathematical only under this obligation
+			r.addGoal(st, fmt.Sprintf("safe.overflow#%d", r.arithSite(ins)), r.posOf(ins), InTypeRange(res), nil)
+			st.assume(InTypeRange(res), "no overflow (proved)")
+			return res
+		}
+	}
 	switch op {
 	case token.ADD:
 		return Add(ta, tb)
@@ -886,6 +916,15 @@ func (r *FnRun) binopVals(st *State, ins ssa.Instruction, op token.Token, a, b V
 		return Le(tb, ta)
 	}
 	panic(unsupported("binop " + op.String()))
+}
+
+func (r *FnRun) arithSite(ins ssa.Instruction) int {
+	if n, ok := r.siteIdx[ins]; ok && n > 0 {
+		return n
+	}
+	r.siteCnt["arith"]++
+	r.siteIdx[ins] = r.siteCnt["arith"]
+	return r.siteIdx[ins]
 }
 
 func (r *FnRun) complexOp(op token.Token, a, b *StructVal) Val {
@@ -943,9 +982,17 @@ func (r *FnRun) unop(st *State, x *ssa.UnOp) Val {
 		if t.Sort.K == KFP {
 			return Term{"(fp.neg " + t.S + ")", t.Sort}
 		}
-		return Sub(zeroLike(t), t)
+		res := Sub(zeroLike(t), t)
+		if t.Sort.K == KInt {
+			r.addGoal(st, fmt.Sprintf("safe.overflow#%d", r.arithSite(x)), r.posOf(x), InTypeRange(res), nil)
+			st.assume(InTypeRange(res), "no overflow (proved)")
+		}
+		return res
 	case token.XOR:
 		t := v.(Term)
+		if t.Sort.K == KInt {
+			panic(unsupported("bitwise complement in int mode"))
+		}
 		return Term{"(bvnot " + t.S + ")", t.Sort}
 	}
 	panic(unsupported("unop " + x.Op.String()))
@@ -957,7 +1004,7 @@ func (r *FnRun) convert(st *State, v Val, from, to types.Type) Val {
 	if fok && tok {
 		t := v.(Term)
 		switch {
-		case fs.K == KBV && ts.K == KBV:
+		case isNum(fs) && isNum(ts):
 			return Resize(t, ts.W, ts.Signed)
 		case fs.K == KBV && ts.K == KFP:
 			op := "to_fp_unsigned"
@@ -1006,7 +1053,7 @@ func (r *FnRun) allocFresh(st *State, hint string, elem types.Type) Val {
 // known so far.
 func (r *FnRun) registerFresh(st *State, addr, size Term) {
 	for _, rg := range st.regions {
-		st.assume(disjointTerm(addr, size, rg.Base, rg.Size), "fresh region disjoint")
+		st.assume(Implies(rg.Cond, disjointTerm(addr, size, rg.Base, rg.Size)), "fresh region disjoint")
 	}
 	r.assumeValid(st, addr, size, true)
 }
@@ -1100,6 +1147,8 @@ func (r *FnRun) loadAt(st *State, addr Term, t types.Type) Val {
 			return Not(Eq(raw, BVInt(0, 8, false)))
 		case KBV:
 			return Term{raw.S, s}
+		case KInt:
+			return r.loadWord(st, addr, s.Signed)
 		default:
 			return raw
 		}
@@ -1108,14 +1157,14 @@ func (r *FnRun) loadAt(st *State, addr Term, t types.Type) Val {
 	case *types.Basic:
 		if u.Info()&types.IsString != 0 {
 			return &StructVal{N: stringFields, F: []Val{
-				Term{Select(st.memArr("M64"), addr).S, BV(64, false)},
-				Term{Select(st.memArr("M64"), Add(addr, BVInt(8, 64, false))).S, BV(64, true)}}}
+				r.loadWord(st, addr, false),
+				r.loadWord(st, Add(addr, BVInt(8, 64, false)), true)}}
 		}
 	case *types.Slice:
 		return &StructVal{T: t, N: sliceFields, F: []Val{
-			Term{Select(st.memArr("M64"), addr).S, BV(64, false)},
-			Term{Select(st.memArr("M64"), Add(addr, BVInt(8, 64, false))).S, BV(64, true)},
-			Term{Select(st.memArr("M64"), Add(addr, BVInt(16, 64, false))).S, BV(64, true)}}}
+			r.loadWord(st, addr, false),
+			r.loadWord(st, Add(addr, BVInt(8, 64, false)), true),
+			r.loadWord(st, Add(addr, BVInt(16, 64, false)), true)}}
 	case *types.Struct:
 		sv := &StructVal{T: t}
 		for i := 0; i < u.NumFields(); i++ {
@@ -1134,10 +1183,24 @@ func (r *FnRun) loadAt(st *State, addr Term, t types.Type) Val {
 		}
 	case *types.Interface:
 		return &StructVal{T: t, N: []string{"itab", "data"}, F: []Val{
-			Term{Select(st.memArr("M64"), addr).S, BV(64, false)},
-			Term{Select(st.memArr("M64"), Add(addr, BVInt(8, 64, false))).S, BV(64, false)}}}
+			r.loadWord(st, addr, false),
+			r.loadWord(st, Add(addr, BVInt(8, 64, false)), false)}}
 	}
 	panic(unsupported("load of type " + t.String()))
+}
+
+// loadWord reads a 64-bit word. In int mode the memory cell holds a
+// mathematical integer constrained to the range of the type it is read at.
+func (r *FnRun) loadWord(st *State, addr Term, signed bool) Term {
+	raw := Select(st.memArr("M64"), addr)
+	t := Term{raw.S, BV(64, signed)}
+	if IntMode && !strings.Contains(raw.S, "!") {
+		if st.ghost["range:"+t.S+fmt.Sprint(signed)] == nil {
+			st.ghost["range:"+t.S+fmt.Sprint(signed)] = true
+			st.assume(InTypeRange(t), "word in memory is within its type's range")
+		}
+	}
+	return t
 }
 
 func (r *FnRun) store(st *State, ins ssa.Instruction, p Val, v Val, t types.Type) {
